@@ -22,7 +22,7 @@ check_id = sys.argv[sys.argv.index("--check-id") + 1] if "--check-id" in sys.arg
 wt = "/tmp/wt/%s" % pid
 src = "%s/MUTANTS/%s" % (wt, k)
 dst = "/verif/seeded/%s-%s" % (pid, k)
-env = dict(os.environ, PYTHONPATH=wt, PYTHONDONTWRITEBYTECODE="1")
+env = dict(os.environ, PYTHONPATH=wt, PYTHONDONTWRITEBYTECODE="1", OMP_NUM_THREADS="1", MKL_NUM_THREADS="1")
 env.pop("TANGERMEME_VERIF", None)
 
 
@@ -48,7 +48,7 @@ def phase_suite():
         f1, o1 = demo()
         res["demo_with_patch"] = "fails" if f1 else "PASSES"
         res["demo_output_with_patch"] = o1
-        cmd = "/venv/bin/python -m pytest -q -p no:cacheprovider --timeout=900 -n 6 tests 2>&1 | tail -40"
+        cmd = "/venv/bin/python -m pytest -q -p no:cacheprovider --timeout=900 -n 8 tests 2>&1 | tail -40"
         rc, out = sh(cmd)
         failed = sorted(set(re.findall(r"^(?:FAILED|ERROR) (\S+)", out, re.M)))
         allowed = set(json.load(open("/root/.vp/BASELINE.json"))["always_fail"])
